@@ -328,7 +328,7 @@ def run_modes_rb(sc, modes, rids=None, qids=None, it=1, do_readback=True):
 def gen_degenerate(rng: random.Random) -> Scenario:
     """well-formed but degenerate inputs (C07)"""
     refs = []
-    kind = rng.choice(["mixed", "mixed", "tiny_refs", "all_unalignable", "dups"])
+    kind = rng.choice(["mixed", "mixed", "tiny_refs", "all_unalignable", "dups", "unlabelled_tail"])
     nref = rng.randrange(1, 4)
     for i in range(nref):
         c = rng.random()
@@ -339,7 +339,13 @@ def gen_degenerate(rng: random.Random) -> Scenario:
         if kind == "dups" and len(R) > 4:
             j = rng.randrange(1, len(R) - 1)
             R = sorted(R + [R[j], R[j]])
-        refs.append((i + 1, R[-1] + 1 + rng.randrange(0, 5000), R))
+        tail = rng.randrange(0, 5000)
+        if kind == "unlabelled_tail" and rng.random() < 0.7:
+            # labels only in the first part of a long contig (or all near coordinate 0)
+            if rng.random() < 0.4:
+                R = sorted(rng.randrange(0, 3000) for _ in range(rng.choice([1, 2, 5])))
+            tail = rng.randrange(200000, 1500000)
+        refs.append((i + 1, R[-1] + 1 + tail, R))
     big = [r for r in refs if len(r[2]) > 10]
     queries = []
     ids = rng.sample(range(1, 40), rng.randrange(2, 8))
@@ -437,12 +443,21 @@ def gen_c06(rng: random.Random, nq=8):
     any coordinate offset and trailing length"""
     n = rng.randrange(80, 200)
     R = gens.rand_map(rng, n, rng.choice([9000, 9500, 12000, 20000]), 2000)
+    if rng.random() < 0.6:
+        # dense ends (gaps 2-3.5 kb at both ends, mean spacing still >= 9 kb): windows that are only 4
+        # labels away from a reference end lie within the refinement margin of coordinate 0 / the end
+        gaps = [R[i + 1] - R[i] for i in range(n - 1)]
+        for i in list(range(0, 7)) + list(range(n - 8, n - 1)):
+            gaps[i] = rng.randrange(2000, 3500)
+        R = [rng.randrange(0, 3000)]
+        for g in gaps:
+            R.append(R[-1] + g)
     ref = (1, R[-1] + 1 + rng.randrange(0, 30000), R)
     queries, truth = [], {}
     ids = rng.sample(range(1, 500), nq)
     for qi in ids:
         k = rng.randrange(15, 46)
-        i = rng.randrange(4, n - k - 4 + 1)
+        i = rng.choice([4, n - k - 4, rng.randrange(4, n - k - 4 + 1), rng.randrange(4, n - k - 4 + 1)])
         win = R[i:i + k]
         Q = [p - win[0] for p in win]
         rev = rng.random() < 0.5
